@@ -93,7 +93,9 @@ class Driver(GenericAdapter):
         if n in ("issubset", "issuperset", "isdisjoint"):
             return ["method:" + f for f in forms]
         if n == "copy_ctor":
-            return ["ctor", "from_iterable", "slice"]
+            # /twin keeps the new object untouched while the source lives on, /swap continues with the new object and
+            # keeps the source untouched (observed by the walks after every later step)
+            return ["ctor", "from_iterable", "slice", "ctor/twin", "slice/twin", "ctor/swap", "from_iterable/swap", "slice/swap"]
         return [None]
 
     def build_args(self, op, variant):
@@ -166,10 +168,17 @@ class Driver(GenericAdapter):
                 v = [1 if getattr(s, n)(args[0]) else 0]
             elif n == "copy_ctor":
                 src = s
-                c = self.cls(src) if variant == "ctor" else self.cls.from_iterable(src) if variant == "from_iterable" else src[:]
+                how, _, keep = (variant or "ctor").partition("/")
+                c = self.cls(src) if how == "ctor" else self.cls.from_iterable(src) if how == "from_iterable" else src[:]
                 got["also_t"] = [self.observe(c, None)]
-                c.add(K(7))
-                c.discard(K(1))
+                if keep == "twin":
+                    got["twin"] = c
+                elif keep == "swap":
+                    got["twin"] = src
+                    s = c
+                else:
+                    c.add(K(7))
+                    c.discard(K(1))
             else:
                 raise core.MachineryError("op " + n)
             r = {"e": "ok", "v": v}
